@@ -1,13 +1,13 @@
 (** C01 — Scheduler evaluation agrees with the graph-reduction semantics.
     Model: Model/EvalTree.v — the workflow as a tree of calls (task calls with literal results,
-    failing tasks, parallel containers of calls, seq, catch, catch_all without recover); [adm] is the documented reduction
+    failing tasks, parallel containers of calls, seq, catch, catch_all with and without a recover task); [adm] is the documented reduction
     semantics (set of admissible outcomes: with several failing children of one container any of
     their errors may surface); the machine lets the schedule decide which call starts and which
     task function finishes next (any executor, any completion order).
 
     Proved for every program of this language and every schedule.  NOT PROVED in Coq (decided by the
     correspondence run and the reference-evaluator oracle on the real scheduler only): lazy
-    operators, partial tasks, expression-valued defaults, cond, catch_all WITH a recover task, map_, flat_map,
+    operators, partial tasks, expression-valued defaults, cond, map_, flat_map,
     apply_func, fork_thread/join_thread, apply_tags, and the executor modes (thread / process /
     async), which differ only in how arguments and results are serialised. *)
 From Coq Require Import List ZArith Bool Arith.
@@ -41,7 +41,18 @@ Theorem C01_catch_all_positional : forall cs ops e,
   exists pre c post vs, cs = pre ++ c :: post /\ Forall2 (fun c v => adm c (Ok v)) pre vs /\ adm c (Ko e).
 Proof.
   intros cs ops e H. apply run_sound in H.
-  inversion H as [ | | | | | | | | |cs0 pre c0 post vs0 e0 Heq Hpre Hc]; subst. eauto 8.
+  inversion H as [ | | | | | | | | |cs0 pre c0 post vs0 e0 Heq Hpre Hc| | ]; subst. eauto 8.
+Qed.
+
+(** With a recover task, catch_all never fails itself: either every term succeeded (the list of values), or the recover
+    task's result over every term's value or error, each admissible for its term. *)
+Theorem C01_catch_all_recover : forall cs ops o,
+  result (run (SAllRec cs) ops) = Some o ->
+  (exists vs, o = Ok (VList vs) /\ Forall2 (fun c v => adm c (Ok v)) cs vs) \/
+  (exists outs e, o = Ok (rec_value outs) /\ Forall2 (fun c x => adm c x) cs outs /\ In (Ko e) outs).
+Proof.
+  intros cs ops o H. apply run_sound in H.
+  inversion H as [ | | | | | | | | | |cs0 vs HF|cs0 outs e Ho He]; subst; [left|right]; eauto.
 Qed.
 
 (** ... and it waits for every term: the later term fails first, the earlier (deeper) one decides. *)
@@ -88,5 +99,6 @@ Print Assumptions C01_result_stable.
 Print Assumptions C01_value_xor_error.
 Print Assumptions C01_reference_decides.
 Print Assumptions C01_catch_all_positional.
+Print Assumptions C01_catch_all_recover.
 Print Assumptions C01_one_outcome.
 Print Assumptions C01_schedule_independent.
